@@ -138,6 +138,38 @@ Fixpoint s7 (n : node) : bool :=
      end) && forallb s7 ch
   end.
 
+(* ---- statement-level definitions for the corollaries of C02 ---- *)
+(* payloads of the RawHtml events, in order *)
+Definition raws (e : list ev) : list bytes :=
+  flat_map (fun x => match x with RawHtml b => [b] | _ => [] end) e.
+(* literals of the node kinds whose payload the renderer writes as is *)
+Definition raw_lit (v : node_value) : list bytes :=
+  match v with EscapedTag l => [l] | Raw l => [l] | _ => [] end.
+Fixpoint raw_lits (n : node) : list bytes :=
+  match n with Node v _ ch => raw_lit v ++ flat_map raw_lits ch end.
+
+Definition attrs_of (e : ev) : list attr :=
+  match e with Open _ a => a | Void _ a => a | _ => [] end.
+
+(* the three shapes of a URL attribute value: empty, one escape_href'ed URL that is not dangerous,
+   or a fragment reference starting with a constant '#...' *)
+Definition url_shape (v : list part) : Prop :=
+  v = [] \/
+  (exists u, v = [PHref u] /\ dangerous_spec u = false) \/
+  (exists c r, v = PConst (x23 :: c) :: r /\ forallb part_safe v = true).
+
+(* tree shape clause S4: heading levels are 1..6 (ATX scanner #{1,6}, setext 1 or 2).  The
+   renderer writes the tag h<level> for whatever level the tree carries, so without S4 the tag
+   need not be in the vocabulary (it is still made of inert bytes). *)
+Fixpoint s4 (n : node) : bool :=
+  match n with
+  | Node v _ ch =>
+    (match v with
+     | Heading level _ => (1 <=? level)%N && (level <=? 6)%N
+     | _ => true
+     end) && forallb s4 ch
+  end.
+
 (* ------------------------------------------------------------------ Part B: bytes *)
 Inductive tok :=
 | TOpen (name : bytes) (attrs : list (bytes * option bytes))   (* value still in escaped form *)
